@@ -263,6 +263,73 @@ fn slow_reader_part(res: &mut PartResult) {
     drop(ex);
 }
 
+/// Many scrapers at once against a rendering that takes a while (12 MB), and scrapers that hang up while their rendering
+/// is being produced: 24 simultaneous GETs are all answered 200 with the whole rendering; after 12 clients, one after
+/// the other, sent a request and hung up before the answer, later clients are served as before.
+fn concurrent_large_part(res: &mut PartResult) {
+    res.engine = "E4 scripted history: 24 simultaneous scrapers of a large rendering; 12 scrapers that hang up mid-render; later clients".into();
+    res.executions = 1;
+    res.states = 1;
+    res.distinct_outcomes = 1;
+    let ex = match start(&[]) {
+        Ok(e) => e,
+        Err((sig, msg)) => {
+            res.violation(&sig, msg, json!({}));
+            return;
+        }
+    };
+    let pad = "x".repeat(4000);
+    for i in 0..3000 {
+        ex.rec.register_counter(&Key::from_parts(format!("big_{}", i), vec![Label::new("pad", pad.clone())]), &META).increment(1);
+    }
+    let cfg = json!({"concurrent_large": true});
+    let addr = ex.addr;
+    let one = move || -> Result<(u16, usize, bool), String> {
+        let r = get(Ipv4Addr::LOCALHOST, addr, "/metrics", Duration::from_secs(60))?;
+        Ok((r.status, r.body.len(), r.body.contains("big_2999")))
+    };
+    // how long one scrape takes (the hang-ups below happen well inside it)
+    let t0 = std::time::Instant::now();
+    let base = one();
+    let one_ms = t0.elapsed().as_millis() as u64;
+    if !matches!(base, Ok((200, _, true))) {
+        res.violation("client-not-served", format!("baseline scrape of the large rendering: {:?}", base.map(|b| (b.0, b.1))), cfg.clone());
+        return;
+    }
+    let want_len = base.unwrap().1;
+    let hs: Vec<_> = (0..24).map(|_| std::thread::spawn(one)).collect();
+    let rs: Vec<Result<(u16, usize, bool), String>> = hs.into_iter().map(|h| h.join().unwrap_or_else(|_| Err("thread".into()))).collect();
+    res.transitions += 24;
+    let bad: Vec<String> = rs.iter().filter(|r| !matches!(r, Ok((200, l, true)) if *l == want_len)).map(|r| format!("{:?}", r.as_ref().map(|x| (x.0, x.1)))).collect();
+    if !bad.is_empty() {
+        res.violation("client-not-served", format!("24 simultaneous scrapers of a rendering that takes {} ms: {} of them were not answered 200 with the whole rendering: {:?}", one_ms, bad.len(), bad.iter().take(6).collect::<Vec<_>>()), cfg.clone());
+    }
+    // scrapers that hang up while their rendering is being produced, one after the other
+    for _ in 0..12 {
+        if let Ok(mut s) = connect_from(Ipv4Addr::LOCALHOST, ex.addr, false) {
+            let _ = s.write_all(b"GET /metrics HTTP/1.1\r\nHost: verif\r\n\r\n");
+            std::thread::sleep(Duration::from_millis((one_ms / 8).clamp(2, 40)));
+            drop(s);
+        }
+        std::thread::sleep(Duration::from_millis(one_ms + 50));
+        res.transitions += 1;
+    }
+    for (peer, path) in [([127, 0, 0, 1], "/metrics"), ([127, 0, 0, 1], "/health"), ([127, 0, 0, 1], "/")] {
+        let r = get_patient(Ipv4Addr::from(peer), ex.addr, path);
+        let ok = match (&r, path) {
+            (Ok(r), "/health") => r.status == 200,
+            (Ok(r), _) => r.status == 200 && r.body.len() == want_len,
+            _ => false,
+        };
+        if !ok {
+            res.violation("later-client-not-served-after-disturbance", format!("after 12 scrapers had sent a request and hung up before the answer (one at a time), GET {} got {:?}", path, r.as_ref().map(|x| (x.status, x.body.len())).map_err(|e| e.clone())), cfg.clone());
+            break;
+        }
+    }
+    res.sample(json!({"history": "baseline scrape; 24 simultaneous scrapes; 12 x (request, hang up mid-render); scrape", "expected": "all answered 200 with the whole rendering"}));
+    drop(ex);
+}
+
 /// An exporter that has no metric yet (a scrape right after start-up, or after everything idled out) still serves:
 /// 200 with an empty exposition for a peer inside the allowlist, 403 outside; and it serves the metrics registered later.
 fn empty_registry_part(res: &mut PartResult) {
@@ -935,6 +1002,7 @@ fn parts(ctx: &Ctx) -> Vec<PartSpec> {
     v.push(PartSpec::new("accept-out-of-descriptors", json!({"fds": true})).budget(b));
     v.push(PartSpec::new("empty-registry", json!({"empty": true})).budget(b));
     v.push(PartSpec::new("slow-reader-12s", json!({"slow": true})).budget(b));
+    v.push(PartSpec::new("concurrent-scrapers-of-a-large-rendering", json!({"conc": true})).budget(b));
     v
 }
 
@@ -944,6 +1012,8 @@ fn run(ctx: &Ctx, spec: &PartSpec) -> PartResult {
     vseq::quiet_panics();
     if spec.arg["fds"].as_bool() == Some(true) {
         fd_exhaustion_part(&mut res);
+    } else if spec.arg["conc"].as_bool() == Some(true) {
+        concurrent_large_part(&mut res);
     } else if spec.arg["slow"].as_bool() == Some(true) {
         slow_reader_part(&mut res);
     } else if spec.arg["empty"].as_bool() == Some(true) {
@@ -969,7 +1039,7 @@ fn main() {
     driver::main(CheckDef {
         prop: "C18",
         level: "fault_enumeration",
-        rule: "allowlists = none and all subsets of size 1-2 (thorough: ordered pairs and subsets of size 3) of {127.0.0.1 (plain address), 127.0.0.2/32, 127.0.0.0/30, 127.0.1.0/24, 10.0.0.0/8, ::1/128, ::/0, 0.0.0.0/0} x peers bound to {127.0.0.1,.2,.3,.4, 127.0.1.0, 127.0.1.255, 127.0.2.0, 127.1.1.1} x paths {/, /metrics, /health, /healthz; from two of the peers also a 9 kB path and a 60 kB query string}, one request each against a fresh real exporter (builder.build() on a tokio runtime; every allowlist given once after and once before the listen address); oracle: independent CIDR arithmetic; inside => 200 and the body parses (strict parser) to exactly the recorded state, /health => OK; outside => 403 with an empty body; plus all disturbance sequences of length <= 2 (thorough 3) over {garbage bytes, half a request then idle, connect + RST, 8 concurrent scrapers, 4 refused scrapes, a silent connection held open by a refused peer, a keep-alive connection idling after its answer held by a refused peer and by an allowed peer} each followed by probes that must be served; a scripted fault history in which accept() itself fails for lack of file descriptors (EMFILE) and descriptors are then released; plus an exporter listening on [::1] scraped from ::1 under no allowlist and all subsets of size 1-2 of {::1, ::1/128, ::/64, ::/8, fe80::/10, 2001:db8::/32, 127.0.0.1, 0.0.0.0/8} (an IPv4 network never admits an IPv6 peer); plus all sequences (depth <= 3 quick / 5 thorough) over {record, scrape, wait for the exporter's periodic upkeep task (15 ms period)}: every scrape reports exactly the samples recorded so far; distinct_nontrivial = distinct (allowlist, peer, outcome) / (sequence, outcome) cases; plus exporters without any metric: /metrics, / and /health inside and outside the allowlist before the first metric (200 with an empty exposition / 403) and again after metrics were registered; plus a scraper with a 4 KiB receive buffer that reads the head of a 12 MB rendering, stalls for 12 s and reads on: status 200 and the whole announced body",
+        rule: "allowlists = none and all subsets of size 1-2 (thorough: ordered pairs and subsets of size 3) of {127.0.0.1 (plain address), 127.0.0.2/32, 127.0.0.0/30, 127.0.1.0/24, 10.0.0.0/8, ::1/128, ::/0, 0.0.0.0/0} x peers bound to {127.0.0.1,.2,.3,.4, 127.0.1.0, 127.0.1.255, 127.0.2.0, 127.1.1.1} x paths {/, /metrics, /health, /healthz; from two of the peers also a 9 kB path and a 60 kB query string}, one request each against a fresh real exporter (builder.build() on a tokio runtime; every allowlist given once after and once before the listen address); oracle: independent CIDR arithmetic; inside => 200 and the body parses (strict parser) to exactly the recorded state, /health => OK; outside => 403 with an empty body; plus all disturbance sequences of length <= 2 (thorough 3) over {garbage bytes, half a request then idle, connect + RST, 8 concurrent scrapers, 4 refused scrapes, a silent connection held open by a refused peer, a keep-alive connection idling after its answer held by a refused peer and by an allowed peer} each followed by probes that must be served; a scripted fault history in which accept() itself fails for lack of file descriptors (EMFILE) and descriptors are then released; plus an exporter listening on [::1] scraped from ::1 under no allowlist and all subsets of size 1-2 of {::1, ::1/128, ::/64, ::/8, fe80::/10, 2001:db8::/32, 127.0.0.1, 0.0.0.0/8} (an IPv4 network never admits an IPv6 peer); plus all sequences (depth <= 3 quick / 5 thorough) over {record, scrape, wait for the exporter's periodic upkeep task (15 ms period)}: every scrape reports exactly the samples recorded so far; distinct_nontrivial = distinct (allowlist, peer, outcome) / (sequence, outcome) cases; plus exporters without any metric: /metrics, / and /health inside and outside the allowlist before the first metric (200 with an empty exposition / 403) and again after metrics were registered; plus a scraper with a 4 KiB receive buffer that reads the head of a 12 MB rendering, stalls for 12 s and reads on: status 200 and the whole announced body; 24 simultaneous scrapers of a 12 MB rendering are all answered 200 with the whole rendering, and after 12 scrapers that hung up while their rendering was being produced later clients are served",
         assumptions: &["tokio / hyper task scheduling runs free: request histories are enumerated, not the server's internal interleavings", "a response is awaited 3 s and then once more for 30 s before 'not served' is reported"],
         parts,
         run,
